@@ -117,48 +117,8 @@ def probe_child(t, cls, c):
     n = cls.__name__
     t.count("evaluations")
     t.count("probes")
-    base = U.MIN(cls)
-    name, kw, members = base
     case = {"cls": n, "child": c.name}
-    chs = S.children(cls)
-    cm = {x.name: x for x in chs}
-    opt, req = S.declared_groups(cls)
-    if c.kind in ("elem", "sub"):
-        val = U.default_value(c) if c.kind == "elem" else U.MIN(c.target)
-        kw2 = dict(kw)
-        # respect groups: drop other members of a group this child belongs to
-        for g in list(opt) + list(req):
-            if c.name in g:
-                for m in g:
-                    if m != c.name:
-                        kw2.pop(m, None)
-        kw2[c.name] = val
-        h = U.hint(cls)
-        if n == "OFX":
-            # do not mix request and response message sets
-            suffix = c.name[-4:]
-            kw2 = {k: v for k, v in kw2.items() if k.endswith(suffix)}
-            son = "signonmsgsrqv1" if suffix == "rqv1" else "signonmsgsrsv1"
-            kw2.setdefault(son, U.MIN(cm[son].target))
-        if n == "CONTRIBSECURITY" and c.name != "secid":
-            kw2 = {k: v for k, v in kw2.items() if k == "secid" or k.endswith(c.name[-3:])}
-        if n == "SONRQ" and c.name == "userkey":
-            kw2.pop("userid", None)
-            kw2.pop("userpass", None)
-        if n == "TAX1099R_V100" and c.name in ("grossdist", "taxamt", "fedtaxwh"):
-            kw2["irasepsimp"] = True
-        if n == "EXTDPAYEE" and c.name == "payeeid":
-            kw2["idscope"] = "GLOBAL"
-            kw2["name"] = "a"
-        term = (name, {x.name: kw2[x.name] for x in chs if x.name in kw2}, members)
-    else:
-        mem = U.member_default(c, 0)
-        members2 = [m for m in members]
-        if not any((S._isterm(m) and S._isterm(mem) and m[0] == mem[0]) or (not S._isterm(m) and not S._isterm(mem)) for m in members2):
-            members2.append(mem)
-        if n == "ACCTINFO":
-            members2 = [mem]
-        term = (name, kw, members2)
+    term = U.min_with(cls, c)
     try:
         inst = U.build(term)
     except Exception as e:
